@@ -26,6 +26,7 @@ pub fn def() -> CheckDef {
         assumptions: &["crash = process crash / into_inner: bytes that reached write() survive (no power-loss model: the property does not state one)", "reference model as in C01"],
         cpu_limit_s: 30,
         fault_kinds: "F-CR at every operation boundary (enumerated per history); fork + continue",
+        count_subruns: false,
     }
 }
 
